@@ -246,20 +246,25 @@ fn foreign_subject() -> BoxedStrategy<FName> {
 			match mode {
 				0 => {
 					// CN=a, CN=b
-					n.0.push(vec![FAttr { oid: vec![2, 5, 4, 3], kind: StrKind::Utf8, text: "a".into(), raw: None }]);
-					n.0.push(vec![FAttr { oid: vec![2, 5, 4, 3], kind: v.kind, text: v.text, raw: None }]);
+					n.0.push(vec![FAttr { oid: vec![2, 5, 4, 3], kind: StrKind::Utf8, text: "a".into(), raw: None, oid_raw: None }]);
+					n.0.push(vec![FAttr { oid: vec![2, 5, 4, 3], kind: v.kind, text: v.text, raw: None, oid_raw: None }]);
 				},
 				// the same attribute twice, value and all (OU=Operations, OU=Operations)
 				2 => {
-					let a = FAttr { oid: vec![2, 5, 4, 11], kind: v.kind, text: v.text, raw: None };
+					let a = FAttr { oid: vec![2, 5, 4, 11], kind: v.kind, text: v.text, raw: None, oid_raw: None };
 					n.0.insert(0, vec![a.clone()]);
 					n.0.insert(1, vec![a]);
 				},
 				1 => {
 					n.0.push(vec![
-						FAttr { oid: vec![2, 5, 4, 3], kind: v.kind, text: v.text, raw: None },
-						FAttr { oid: vec![2, 5, 4, 5], kind: StrKind::Printable, text: "7".into(), raw: None },
+						FAttr { oid: vec![2, 5, 4, 3], kind: v.kind, text: v.text, raw: None, oid_raw: None },
+						FAttr { oid: vec![2, 5, 4, 5], kind: StrKind::Printable, text: "7".into(), raw: None, oid_raw: None },
 					]);
+				},
+				// legacy contents: Latin-1 octets in a T61String; octets above 0x7f in a PrintableString / IA5String
+				3 => {
+					let kind = [StrKind::Teletex, StrKind::Printable, StrKind::Ia5][v.text.len() % 3];
+					n.0.push(vec![FAttr { oid: vec![2, 5, 4, 10], kind, text: String::new(), raw: Some(Hex(vec![b'C', b'a', b'f', 0xe9, b' ', 0xa0, 0xff])), oid_raw: None }]);
 				},
 				_ => {},
 			}
@@ -360,13 +365,19 @@ pub fn forge_foreign(f: &ForeignCsr) -> Result<Vec<u8>, String> {
 			)),
 			Unsupported::Custom => exts.push(forge::enc_ext(&[1, 3, 6, 1, 4, 1, 55555, 1], false, &der::enc_tlv(0x04, b"x"))),
 			Unsupported::UnknownEku => {
-				// replace / add an EKU with an unknown purpose
+				// replace / add an EKU with an unknown purpose, next to known ones and anyExtendedKeyUsage
 				exts.retain(|e| !e.windows(5).any(|w| w == [0x06, 0x03, 0x55, 0x1d, 0x25]));
-				exts.push(forge::enc_ext(
-					x509::OID_EKU,
-					false,
-					&der::enc_seq(&[der::enc_oid(&[1, 3, 6, 1, 5, 5, 7, 3, 1]), der::enc_oid(&[1, 3, 6, 1, 4, 1, 55555, 2])]),
-				));
+				let unknown: &[u64] = [&[1u64, 3, 6, 1, 4, 1, 55555, 2][..], &[1, 3, 6, 1, 5, 5, 7, 3, 17], &[1, 3, 6, 1, 4, 1, 311, 20, 2, 2]][f.subject.0.len() % 3];
+				let server = der::enc_oid(&[1, 3, 6, 1, 5, 5, 7, 3, 1]);
+				let any = der::enc_oid(&[2, 5, 29, 37, 0]);
+				let list = match spec.sans.len() % 5 {
+					0 => vec![server, der::enc_oid(unknown)],
+					1 => vec![any, der::enc_oid(unknown)],
+					2 => vec![der::enc_oid(unknown), any, server],
+					3 => vec![der::enc_oid(unknown)],
+					_ => vec![server, any, der::enc_oid(unknown), der::enc_oid(&[1, 3, 6, 1, 5, 5, 7, 3, 9])],
+				};
+				exts.push(forge::enc_ext(x509::OID_EKU, false, &der::enc_seq(&list)));
 			},
 			Unsupported::SubjectKeyId => exts.push(forge::enc_ext(x509::OID_SKI, false, &der::enc_tlv(0x04, &[1, 2, 3, 4]))),
 			Unsupported::OddSanEntry(kind) => {
